@@ -54,7 +54,7 @@ func (c *compiler) enter(vt reflect.Type) {
 	c.depth += 1
 
 	if c.depth > _CompileMaxDepth {
-		panic(*stackOverflow)
+		panic(stackOverflow)
 	}
 }
 
